@@ -45,6 +45,11 @@ fn check(which: Which, ex: &Ex, pts: &[(Vars, Memo)]) -> Vec<(String, String)> {
                     Err(_) => out.push(("reparse".to_string(), format!("`{txt}` does not parse"))),
                     Ok(e2) => {
                         let ex2 = Ex::from_expr(&e2);
+                        // every number literal must come back exactly (as a constant of the same value), whatever
+                        // its magnitude: value comparison at assignments cannot see a literal below 1e-8 turn into 0
+                        if let Some(d) = literal_mismatch(ex, &ex2) {
+                            out.push(("literal".to_string(), format!("`{txt}`: {d}")));
+                        }
                         let mut compared = 0;
                         set_label(if ex2 == *ex { "reparsed-identical-structure" } else { "reparsed-different-structure" });
                         let special = special_points();
@@ -204,6 +209,69 @@ fn check(which: Which, ex: &Ex, pts: &[(Vars, Memo)]) -> Vec<(String, String)> {
     out
 }
 
+/// exact value of a closed subtree built from literals with sign and sum only (what a printed complex or
+/// negative literal parses to)
+fn const_value(e: &Ex) -> Option<C> {
+    Some(match e {
+        Ex::Num(r, i) => C::new(*r, *i),
+        Ex::Pre(0, c) => -const_value(c)?,
+        Ex::Pre(_, c) => const_value(c)?,
+        Ex::In(1, a, b) => const_value(a)? + const_value(b)?,
+        Ex::In(2, a, b) => const_value(a)? - const_value(b)?,
+        _ => return None,
+    })
+}
+
+/// first number literal of `orig` whose counterpart in the re-parsed tree is not a constant of exactly the
+/// same value (shapes are followed as long as they agree; a differing shape is left to the value clause)
+fn literal_mismatch(orig: &Ex, re: &Ex) -> Option<String> {
+    match orig {
+        Ex::Num(r, i) => {
+            let z = C::new(*r, *i);
+            match const_value(re) {
+                Some(v) if v == z => None,
+                Some(v) => Some(format!("the literal {} came back as {}", Ex::Num(*r, *i).show(), Ex::Num(v.re, v.im).show())),
+                None => Some(format!("the literal {} came back as the non-constant {}", Ex::Num(*r, *i).show(), re.show())),
+            }
+        }
+        Ex::Fn(f, c) => match re {
+            Ex::Fn(f2, c2) if f2 == f => literal_mismatch(c, c2),
+            _ => None,
+        },
+        Ex::Pre(p, c) => match re {
+            Ex::Pre(p2, c2) if p2 == p => literal_mismatch(c, c2),
+            _ => None,
+        },
+        Ex::In(o, l, r) => match re {
+            Ex::In(o2, l2, r2) if o2 == o => literal_mismatch(l, l2).or_else(|| literal_mismatch(r, r2)),
+            _ => None,
+        },
+        _ => None,
+    }
+}
+
+/// literals of extreme or awkward magnitude (C03's literal layer)
+fn awkward_literals() -> Vec<Ex> {
+    vec![
+        Ex::Num(1e-17, 0.0),
+        Ex::Num(-2.5e-300, 0.0),
+        Ex::Num(0.0, 3e-20),
+        Ex::Num(4e-18, -7e-200),
+        Ex::Num(5e-324, 0.0),
+        Ex::Num(1e-7, 0.0),
+        Ex::Num(1e15, 0.0),
+        Ex::Num(1e16, 0.0),
+        Ex::Num(1e21, 0.0),
+        Ex::Num(1e300, -1e300),
+        Ex::Num(1.7976931348623157e308, 0.0),
+        Ex::Num(1.0 / 3.0, 0.0),
+        Ex::Num(0.1, 0.2),
+        Ex::Num(123456789.123456789, 0.0),
+        Ex::Num(9007199254740993.0, 0.0),
+        Ex::Num(1.5, 1e-300),
+    ]
+}
+
 fn special_points() -> Vec<(Vars, Memo)> {
     let mk = |x: f64, y: f64, a: [f64; 2], b: [f64; 2]| -> (Vars, Memo) {
         ([("x".to_string(), C::new(x, 0.0)), ("y".to_string(), C::new(y, 0.0))].into(), [("a".to_string(), a.to_vec()), ("b".to_string(), b.to_vec())].into())
@@ -336,6 +404,33 @@ fn sweep(ctx: &mut Ctx, which: Which) {
             }
         }
     }
+    // literal layer: awkward magnitudes alone, under every unary node, and combined with every leaf by
+    // every infix operator on either side
+    {
+        let aw = awkward_literals();
+        let base = leaves();
+        let mut trees: Vec<Ex> = aw.clone();
+        for a in &aw {
+            for f in 0..5u8 {
+                trees.push(Ex::Fn(f, Box::new(a.clone())));
+            }
+            for p in 0..2u8 {
+                trees.push(Ex::Pre(p, Box::new(a.clone())));
+            }
+            for b in base.iter().chain(aw.iter()) {
+                for o in 0..5u8 {
+                    trees.push(Ex::In(o, Box::new(a.clone()), Box::new(b.clone())));
+                    trees.push(Ex::In(o, Box::new(b.clone()), Box::new(a.clone())));
+                }
+            }
+        }
+        ctx.bound("literal_layer_trees", json!(trees.len()));
+        for e in &trees {
+            if ctx.take(|| json!({"expr": e.show()})) {
+                eval_case(ctx, which, e, &pts, &mut shrinks);
+            }
+        }
+    }
     // every tree of depth <= 3 over a minimal structural alphabet {a[0], b[1], 1} x {sin, unary minus} x {+}:
     // nesting shapes (a wrapper around a compound as a right operand, wrappers of wrappers, ...) rather
     // than operator variety
@@ -417,7 +512,7 @@ pub static C03: PropDef = PropDef {
     id: "C03",
     level: "exploration",
     engine: "sweep",
-    rule: "every expression tree of depth <= 2 over leaves {0,1,-1,2.5,1+2i,-2i,pi,%x,%y,a[0],b[1]}, the 5 functions, prefix -/+ and the 5 infix operators, built through the public constructors (2.4 M trees), plus a balanced depth-3 layer: (affine side) op (affine side) with sides (L*M)+N, N-(L/M), ... over {%x, %y, 2.5, a[0]} (512 sides; op in {+,-}, thorough all five), and every tree of depth <= 3 over the structural alphabet {a[0], b[1], 1} x {sin, unary minus} x {+} (132 528 trees); thorough adds a reduced-alphabet depth-3 layer with one deep branch. Each is printed, parsed back and both are evaluated at 3 generic points and 3 special ones (all 0; all 1; x = 2.5, y = -1, i.e. values colliding with literal leaves). non-trivial = non-leaf tree, distinct by structure",
+    rule: "every expression tree of depth <= 2 over leaves {0,1,-1,2.5,1+2i,-2i,pi,%x,%y,a[0],b[1]}, the 5 functions, prefix -/+ and the 5 infix operators, built through the public constructors (2.4 M trees), plus a balanced depth-3 layer: (affine side) op (affine side) with sides (L*M)+N, N-(L/M), ... over {%x, %y, 2.5, a[0]} (512 sides; op in {+,-}, thorough all five), and every tree of depth <= 3 over the structural alphabet {a[0], b[1], 1} x {sin, unary minus} x {+} (132 528 trees); thorough adds a reduced-alphabet depth-3 layer with one deep branch. plus a literal layer (16 literals of extreme or awkward magnitude - 1e-17, 5e-324, 1e300-1e300i, 1/3, 2^53+1, ... - alone, under every unary node and combined with every leaf by every operator). Each is printed, parsed back, every number literal must come back exactly, and both are evaluated at 3 generic points and 3 special ones (all 0; all 1; x = 2.5, y = -1, i.e. values colliding with literal leaves). non-trivial = non-leaf tree, distinct by structure",
     assumptions: ASSUME,
     run: |ctx| sweep(ctx, Which::C03),
     replay: |c| replay(Which::C03, c),
